@@ -1,7 +1,7 @@
 (** C18 property theorems: statements only, each closed by [exact]; proofs are in C18/C18_Proofs.v (and C18_Refine.v),
     the model in C18/C18_Model.v, the ghost specification in C18/C18_Spec.v. *)
 From Coq Require Import List Arith Bool PeanoNat.
-Require Import C18_Model C18_Spec C18_Basics C18_Proofs.
+Require Import C18_Model C18_Spec C18_Basics C18_Refine C18_Refine2 C18_Refine3 C18_Values C18_Proofs.
 Import ListNotations.
 
 Theorem C18_upd_lowers_all_stages cf s o g : inval_of s o = Some g ->
@@ -21,4 +21,86 @@ Theorem C18_versions_bump_exactly_invalidated_stages cf s o g : inval_of s o = S
   (forall i, i < nsubs s -> g <= 1 -> s_ver (get_sub i s') = if s_stage (get_sub i s) =? 0 then s_ver (get_sub i s) else ver0).
 Proof. exact (versions_bump_exactly_invalidated_stages cf s o g). Qed.
 Print Assumptions C18_versions_bump_exactly_invalidated_stages.
+
+Theorem C18_valid_iff_spec_partial cf s l : wf_check s = true -> dyn_check s = true -> legal_run cf s l = true ->
+  trace cf s l = gtrace (abs s) l /\ obs (run cf s l) = gobs (grun (abs s) l) /\
+  forall k, isUpToDate (run cf s l) k = gvalid (grun (abs s) l) k.
+Proof. exact (valid_iff_spec_partial cf s l). Qed.
+Print Assumptions C18_valid_iff_spec_partial.
+
+Theorem C18_step_refines_spec cf s o : WF s -> Dyn s -> runtime s o = true -> legal cf s o = true ->
+  abs (fst (step cf s o)) = fst (gstep (abs s) o) /\ snd (step cf s o) = snd (gstep (abs s) o) /\ WF (fst (step cf s o)) /\ Dyn (fst (step cf s o)).
+Proof. exact (step_refines_spec cf s o). Qed.
+Print Assumptions C18_step_refines_spec.
+
+Theorem C18_valid_iff_spec_nonvacuous :
+  let s := run cfg_now (st0 2) ex_setup in
+  wf_check s = true /\ dyn_check s = true /\ legal_run cfg_now s ex_run = true /\ legal_run cfg_fixed s ex_run = true /\
+  isUpToDate (run cfg_now s [AdvSub 0 4; AdvSub 1 4; AdvSys 4; AdvSub 0 5; AdvSub 1 5; AdvSys 5; Mark (0,1)]) (0,1) = true /\
+  isUpToDate (run cfg_now s [AdvSub 0 4; AdvSub 1 4; AdvSys 4; AdvSub 0 5; AdvSub 1 5; AdvSys 5; Mark (0,1); Upd WQ; AdvSub 0 5; AdvSub 1 5; AdvSys 5]) (0,1) = false.
+Proof. exact (@valid_iff_spec_nonvacuous). Qed.
+Print Assumptions C18_valid_iff_spec_nonvacuous.
+
+Theorem C18_valid_iff_spec_refuted_autoupdate :
+  exists l k dk, let s0 := run cfg_now (st0 1) (removelast l) in let s := run cfg_now (st0 1) l in
+    last l Query = AutoUpdate /\
+    isUpToDate s k = true /\ gvalid (grun (abs (st0 1)) l) k = false /\
+    d_val (get_dv dk s0) <> d_val (get_dv dk s) /\ d_valver (get_dv dk s0) = d_valver (get_dv dk s) /\ In dk (c_dvs (get_ce k s)).
+Proof. exact (@valid_iff_spec_refuted_autoupdate). Qed.
+Print Assumptions C18_valid_iff_spec_refuted_autoupdate.
+
+Theorem C18_autoupdate_fixed_agrees :
+  let s0 := run cfg_fixed (st0 1) (removelast w_auto) in let s := run cfg_fixed (st0 1) w_auto in
+  isUpToDate s (0,1) = false /\ trace cfg_fixed (st0 1) w_auto = gtrace (abs (st0 1)) w_auto /\ d_valver (get_dv (0,0) s) = S (d_valver (get_dv (0,0) s0)).
+Proof. exact (@autoupdate_fixed_agrees). Qed.
+Print Assumptions C18_autoupdate_fixed_agrees.
+
+Theorem C18_valid_iff_spec_refuted_markahead :
+  exists l k, isUpToDate (run cfg_now (st0 1) l) k = true /\ gvalid (grun (abs (st0 1)) l) k = false /\
+              isUpToDate (run cfg_fixed (st0 1) l) k = true.
+Proof. exact (@valid_iff_spec_refuted_markahead). Qed.
+Print Assumptions C18_valid_iff_spec_refuted_markahead.
+
+Theorem C18_valid_iff_spec_refuted_copy :
+  exists l k, isUpToDate (nth 1 (wrun cfg_now [st0 1; st0 1] l) (st0 0)) k = true /\
+              isUpToDate (nth 0 (wrun cfg_now [st0 1; st0 1] (l ++ map (On 0) (adv 0 5 5))) (st0 0)) k = false /\
+              gvalid (nth 1 (gwrun [abs (st0 1); abs (st0 1)] l) (mkG 0 [])) k = false.
+Proof. exact (@valid_iff_spec_refuted_copy). Qed.
+Print Assumptions C18_valid_iff_spec_refuted_copy.
+
+Theorem C18_copy_fixed_agrees :
+  isUpToDate (nth 1 (wrun cfg_fixed [st0 1; st0 1] w_copy) (st0 0)) (0,0) = false /\
+  map abs (wrun cfg_fixed [st0 1; st0 1] w_copy) = gwrun [abs (st0 1); abs (st0 1)] w_copy.
+Proof. exact (@copy_fixed_agrees). Qed.
+Print Assumptions C18_copy_fixed_agrees.
+
+Theorem C18_value_versions_monotone_and_change_on_upd cf s : WF s ->
+  (forall o, runtime s o = true -> le_vals s (fst (step cf s o))) /\
+  (forall k v, runtime s (SetDV k v) = true -> has_sub s (fst k) && has_dv s k = true ->
+      d_val (get_dv k (fst (step cf s (SetDV k v)))) = v /\ d_valver (get_dv k (fst (step cf s (SetDV k v)))) = S (d_valver (get_dv k s))) /\
+  qvs (fst (step cf s (Upd WQ))) = (S (qv s), uv s, zv s) /\ qvs (fst (step cf s (Upd WU))) = (qv s, S (uv s), zv s) /\
+  qvs (fst (step cf s (Upd WZ))) = (qv s, uv s, S (zv s)) /\ qvs (fst (step cf s (Upd WY))) = (S (qv s), S (uv s), S (zv s)) /\
+  qvs (fst (step cf s (Upd WT))) = qvs s.
+Proof. exact (value_versions_monotone_and_change_on_upd cf s). Qed.
+Print Assumptions C18_value_versions_monotone_and_change_on_upd.
+
+Theorem C18_autoupdate_swaps_only_on_request cf s : WF s ->
+  (forall o dk, runtime s o = true -> o <> AutoUpdate -> (forall v, o <> SetDV dk v) -> get_dv dk (fst (step cf s o)) = get_dv dk s) /\
+  (forall dk cx, d_auto (get_dv dk s) = Some cx -> has_dv s dk = true -> has_ce s (fst dk, cx) = true ->
+      let s' := auto_one cf s dk in
+      (isUpToDate s (fst dk,cx) = true -> d_val (get_dv dk s') = c_val (get_ce (fst dk,cx) s) /\ c_val (get_ce (fst dk,cx) s') = d_val (get_dv dk s)) /\
+      (isUpToDate s (fst dk,cx) = false -> s' = s)).
+Proof. exact (autoupdate_swaps_only_on_request cf s). Qed.
+Print Assumptions C18_autoupdate_swaps_only_on_request.
+
+Theorem C18_copy_deep_independent cf w i o j : j <> i -> nth j (fst (wstep cf w (On i o))) (st0 0) = nth j w (st0 0).
+Proof. exact (copy_deep_independent cf w i o j). Qed.
+Print Assumptions C18_copy_deep_independent.
+
+Theorem C18_copy_stage_rule cf w d s_ : d < length w -> s_ < length w -> d <> s_ ->
+  let w' := fst (wstep cf w (CopyC d s_)) in let src := nth s_ w (st0 0) in let c := nth d w' (st0 0) in
+  nth s_ w' (st0 0) = src /\ sys_stage c = Nat.min (sys_stage src) 3 /\ nsubs c = nsubs src /\
+  forall i, i < nsubs src -> s_stage (get_sub i c) = Nat.min (s_stage (get_sub i src)) 3.
+Proof. exact (copy_stage_rule cf w d s_). Qed.
+Print Assumptions C18_copy_stage_rule.
 
